@@ -18,6 +18,8 @@ type rewriter struct {
 	// name returns the new name of the named type (name, inner) where inner
 	// is the already rewritten underlying type.
 	name func(name string, inner zed.Type) string
+	// nameOrig, if set, takes precedence: it also sees the original type.
+	nameOrig func(orig *zed.TypeNamed, inner zed.Type) string
 	// symbols returns the new symbol list of an enum type (same length).
 	symbols func(syms []string) []string
 	// field returns the new name of a record field; pos is its index.
@@ -38,7 +40,9 @@ func (r *rewriter) typ(t zed.Type) zed.Type {
 	case *zed.TypeNamed:
 		inner := r.typ(t.Type)
 		name := t.Name
-		if r.name != nil {
+		if r.nameOrig != nil {
+			name = r.nameOrig(t, inner)
+		} else if r.name != nil {
 			name = r.name(t.Name, inner)
 		}
 		n, err := r.zctx.LookupTypeNamed(name, inner)
